@@ -46,7 +46,9 @@ def observe(ev, back=None):
     conv = (lambda s: s.split(".")) if back is None else back
     modules = sorted(conv(n) for n in g.nodes)
     imports = sorted([conv(u), conv(v)] for u, v, d in g.edges(data=True) if not d.get("inherits"))
-    return {"modules": modules, "imports": imports}
+    # the hierarchy as the graph holds it (its 'inherits' edges): must be the parent/child relation of the NAMES
+    hier = sorted([conv(u), conv(v)] for u, v, d in g.edges(data=True) if d.get("inherits"))
+    return {"modules": modules, "imports": imports, "hier": hier}
 
 
 def candidate_imports(modules, allow_child_to_ancestor=True, importers=None):
